@@ -263,12 +263,124 @@ def gen_problem(rng, njobs=None, metric=None, nlocs=None, tight=None, multi=True
     mats = add_routing_features(frng3, problem, matrix, feats3) if feats3 else None
     if not mats:
         feats3 = []
+    # round four: every feature has its OWN forked stream (so a later feature never changes what an earlier one produced) and is
+    # drawn only for callers that ALLOW it (C01, C02, C03: the plugins that evaluate Spec/ValidX.v)
+    feats4 = []
+    for f in FEATURES4:
+        frng4 = rng.fork('feature4-' + f)
+        on = (frng4.chance(1, 3) and f in allow) if features is None else f in features
+        if on and FEATURE4_ADD[f](frng4, problem, mats or [matrix], tight):
+            feats4.append(f)
     return {'problem': problem, 'matrices': mats or [matrix],
-            'meta': {'n': n, 'metric': bool(metric), 'tight': bool(tight), 'njobs': njobs, 'features': feats + feats2 + feats3}}
+            'meta': {'n': n, 'metric': bool(metric), 'tight': bool(tight), 'njobs': njobs,
+                     'features': feats + feats2 + feats3 + feats4}}
 
 
 FEATURES2 = ('breaks',)
 FEATURES3 = ('tdm',)
+# FEATURES4: round four, in the order they are applied (defined next to FEATURE4_ADD below)
+
+
+def add_replacements(frng, problem, mats, tight=False):
+    """'replace': 2-4 EXTRA jobs with REPLACEMENT tasks (jobs.md "Replacement job": the new good is loaded at the beginning of the
+    journey, the old one is brought to the journey's end - a simultaneous static delivery and static pickup of the same demand):
+    single replacement jobs, replacement + service, two replacements at different locations, static pickup + replacement
+    (jobs.md "Mixing job tasks": pickups before any delivery, replacement or service), shipment + replacement.  Demands 1-3 in
+    every capacity dimension of the problem; about a third of the vehicle types get a small capacity so that the replaced good
+    (on board for the WHOLE trip) binds.  The existing jobs are not touched."""
+    jobs = problem['plan']['jobs']
+    vehicles = problem['fleet']['vehicles']
+    n = matrix_size(mats[0])
+    k = max(len(v['capacity']) for v in vehicles)
+    horizon = 400
+    base = len(jobs)
+
+    def dem():
+        return [frng.range(1, 3)] + [frng.choice([0, 1, 1, 2]) for _ in range(k - 1)]
+
+    def task(jid, i, demand, avoid=(), tags=True):
+        t, loc = _task(frng, n, horizon, None, jid, i, force_tags=tags, avoid=avoid)
+        if demand is not None:
+            t['demand'] = list(demand)
+        for pl in t['places']:
+            if frng.chance(1, 2):
+                pl.pop('times', None)
+        return t, loc
+    for x in range(frng.range(2, 4)):
+        jid = 'j%d' % (base + x + 1)
+        r = frng.below(20)
+        if r < 9 or n < 2:
+            t, _ = task(jid, 0, dem(), tags=frng.chance(1, 2))
+            job = {'id': jid, 'replacements': [t]}
+        elif r < 12:
+            t1, _ = task(jid, 0, dem())
+            t2, _ = task(jid, 1, None)
+            job = {'id': jid, 'replacements': [t1], 'services': [t2]}
+        elif r < 15:
+            t1, l1 = task(jid, 0, dem())
+            t2, _ = task(jid, 1, dem(), avoid=(l1,))
+            if {pl['location']['index'] for pl in t1['places']} & {pl['location']['index'] for pl in t2['places']}:
+                t2['places'] = [pl for pl in t2['places'] if pl['location']['index'] != l1][:1] or t2['places'][:1]
+            job = {'id': jid, 'replacements': [t1, t2]}
+        elif r < 18:
+            t1, _ = task(jid, 0, dem())
+            t2, _ = task(jid, 1, dem())
+            job = {'id': jid, 'pickups': [t1], 'replacements': [t2]}
+        else:
+            d = dem()
+            t1, _ = task(jid, 0, d)
+            t2, _ = task(jid, 1, d)
+            t3, _ = task(jid, 2, dem())
+            job = {'id': jid, 'pickups': [t1], 'deliveries': [t2], 'replacements': [t3]}
+        jobs.append(job)
+    for v in vehicles:
+        if frng.chance(1, 3):
+            v['capacity'] = [frng.choice([2, 3, 3, 4])] + list(v['capacity'][1:])
+    return True
+
+
+def add_required_breaks(frng, problem, mats, tight=False):
+    """'reqbreak': REQUIRED breaks (vehicles.md: `time` = exact time or offset interval {earliest, latest} "when the break should
+    happen", `duration`; "guaranteed to be assigned"; the documents show them as a break activity inside a stop or as a transit
+    stop without location) on the shifts of most vehicle types that have neither optional breaks nor reloads: 1-2 per shift, all of one kind
+    (the reader refuses a mix of exact and offset times), pairwise disjoint and starting inside the shift (E1303); about half of
+    them a point in time (earliest = latest); `start.latest = start.earliest` on such a shift (E1307 for offsets; break.md calls
+    it a hard requirement for this break type)."""
+    vehicles = problem['fleet']['vehicles']
+    if general_routing({'problem': problem, 'matrices': mats}):
+        return False                     # not combined with general routing data (the replay around reserved times is classic)
+    done = False
+    for v in vehicles:
+        if done and not frng.chance(3, 4):
+            continue
+        for sh in v['shifts']:
+            # not on a shift with optional breaks or reloads (the accounting of those activities reads their reported length)
+            if sh.get('breaks') or sh.get('reloads') or (done and not frng.chance(4, 5)):
+                continue
+            e1 = secs(sh['start']['earliest'])
+            end = secs(sh['end']['latest']) if sh.get('end') else e1 + 700
+            offset = frng.chance(1, 2)
+            brs, lo = [], e1 + frng.choice([frng.range(5, 40), frng.range(20, 150)])
+            for k in range(frng.choice([1, 1, 2])):
+                width = frng.choice([0, 0, frng.range(5, 30), frng.range(20, 90)])
+                dur = frng.choice([5, 10, 15, 30])
+                if lo > end - 1:
+                    break
+                a, b = lo, lo + width
+                brs.append({'time': {'earliest': a - e1, 'latest': b - e1} if offset else {'earliest': rfc(a), 'latest': rfc(b)},
+                            'duration': dur})
+                lo = b + dur + frng.range(10, 120)
+            if brs:
+                sh['breaks'] = brs
+                sh['start']['latest'] = sh['start']['earliest']
+                done = True
+    return done
+
+
+FEATURES4 = ('replace', 'reqbreak')
+FEATURE4_ADD = {'replace': add_replacements, 'reqbreak': add_required_breaks}
+# what the plugins built on the full checker (C01, C02, C03) pass as `allow=`: general routing data + every round-four feature
+ALLOW_E2E = ('tdm', 'replace', 'reqbreak')
 
 
 def add_routing_features(frng, problem, matrix, feats):
@@ -799,9 +911,13 @@ def g_stat(st):
                                               z(t['serving']), z(t['waiting']), z(t['break']))
 
 
+TRANSIT = -2               # ValidX.TRANSIT: ss_loc of a stop without location (a required break taken while driving)
+
+
 def g_stop(ids, s):
-    return '(mkSStop %s %s %s %s %s %s)' % (z(s['location']['index']), z(secs(s['time']['arrival'])),
-                                           z(secs(s['time']['departure'])), z((s['load'] or [0])[0]), z(s['distance']),
+    loc = s['location']['index'] if s.get('location') is not None else TRANSIT
+    return '(mkSStop %s %s %s %s %s %s)' % (z(loc), z(secs(s['time']['arrival'])),
+                                           z(secs(s['time']['departure'])), z((s['load'] or [0])[0]), z(s.get('distance', -1)),
                                            lst(s['activities'], lambda a: g_act(ids, a)))
 
 
@@ -826,6 +942,218 @@ def g_solution(p, s, ids=None):
         lst(un, lambda u: '(%s, %s)' % (z(ids.job(u['jobId'])), nat(len(u.get('reasons') or [])))))
 
 
+def required_break_times(b):
+    """(earliest, latest, offset?) of a required break: absolute seconds relative to BASE, or raw offsets"""
+    t = b['time']
+    if isinstance(t['earliest'], str):
+        return secs(t['earliest']), secs(t['latest']), False
+    return int(t['earliest']), int(t['latest']), True
+
+
+def has_required_breaks(p):
+    return any(required_breaks(sh) for vt in p['problem']['fleet']['vehicles'] for sh in vt['shifts'])
+
+
+def g_xproblem(p, ids=None):
+    """Gallina term of type ValidX.xproblem: the problem data Valid.pproblem has no field for (required breaks per vehicle type and shift)"""
+    ids = ids or Ids(p)
+    rows = []
+    for vt in p['problem']['fleet']['vehicles']:
+        for k, sh in enumerate(vt['shifts']):
+            brs = required_breaks(sh)
+            if brs:
+                def g(b):
+                    e, l, off = required_break_times(b)
+                    return '(mkRBreak %s %s %s %s)' % (z(e), z(l), z(int(b['duration'])), 'true' if off else 'false')
+                rows.append('(%s, %s, %s)' % (z(ids.vtype(vt['typeId'])), nat(k), lst(brs, g)))
+    return '(mkXProblem [%s])' % '; '.join(rows)
+
+
+def needs_x(p):
+    """does the problem use a feature whose rules live in Spec/ValidX.v beyond the additive ones (required breaks ...)?"""
+    return has_required_breaks(p)
+
+
+def term_A(c, s, ids, P='P', S='S'):
+    """group A (C02) on the let-bound problem P and solution S: Valid.accounted_b plus the round-four rules"""
+    return '(accounted4 %s %s %s)' % (g_xproblem(c, ids), P, S)
+
+
+def term_F(c, s, ids, R='R', P='P', S='S'):
+    """group F (C01): for a problem with required breaks ValidX.feasible4 (= feasible_viols ++ xfeasible_viols around the reserved
+    times, proved equal to them for a problem without), otherwise the expression the plugin evaluated before round four"""
+    if needs_x(c):
+        return '(feasible4 %s %s %s)' % (g_xproblem(c, ids), P, S)
+    return '(feasible_viols_x %s %s %s ++ xfeasible_viols %s %s)' % (R, P, S, P, S)
+
+
+def term_R(c, s, ids, R='R', P='P', S='S'):
+    """group R (C03), likewise"""
+    if needs_x(c):
+        return '(replay4 %s %s %s)' % (g_xproblem(c, ids), P, S)
+    return '(replay_viol_x %s %s %s ++ xreplay_viols %s %s)' % (R, P, S, P, S)
+
+
+def tour_required_breaks(p, tour):
+    """the required breaks of the vehicle shift that drives the document tour ([] when it has none)"""
+    vt = vehicle_type_of(p, tour)
+    if vt is None or tour.get('shiftIndex', 0) >= len(vt['shifts']):
+        return []
+    return required_breaks(vt['shifts'][tour.get('shiftIndex', 0)])
+
+
+def _tour_break_intervals(tour):
+    """reported (start, end) of the break activities of a document tour (a break without `time`: its stop's schedule)"""
+    out = []
+    for st in tour['stops']:
+        for a in st['activities']:
+            if a.get('type') == 'break':
+                tm = a.get('time')
+                out.append((secs(tm['start']), secs(tm['end'])) if tm else (secs(st['time']['arrival']), secs(st['time']['departure'])))
+    return sorted(out)
+
+
+def rb_unreported_time(p, tour):
+    """seconds of break the tour STATISTIC counts beyond the break activities the tour reports (> 0: the writer took a required
+    break into account - TransitBreakMoved: moved in front of a drive - without writing the activity)"""
+    if not tour_required_breaks(p, tour):
+        return 0
+    return tour['statistic']['times']['break'] - sum(e - b for b, e in _tour_break_intervals(tour))
+
+
+def _waiting_periods(tour):
+    """[(arrival, service start)] with arrival < start over the job activities of a document tour (twin of Valid.flat_acts)"""
+    out = []
+    for st in tour['stops']:
+        arr = secs(st['time']['arrival'])
+        for a in st['activities']:
+            tm = a.get('time')
+            b, e = (secs(tm['start']), secs(tm['end'])) if tm else (secs(st['time']['arrival']), secs(st['time']['departure']))
+            if a.get('type') == 'break':
+                continue
+            if b > arr:
+                out.append((arr, b))
+            arr = e
+    return out
+
+
+def gross_waiting(tour):
+    return sum(b - a for a, b in _waiting_periods(tour))
+
+
+def rb_waiting_overlap(p, tour):
+    """seconds of the reported required breaks that lie inside waiting periods (arrival .. service start) of the tour"""
+    if not tour_required_breaks(p, tour):
+        return 0
+    return sum(max(0, min(e, w1) - max(b, w0)) for b, e in _tour_break_intervals(tour) for w0, w1 in _waiting_periods(tour))
+
+
+def rb_reported_twice(tour):
+    """the (start, end) of a break that the tour reports both as a stop without location and as an activity inside a stop"""
+    transit, inside = [], []
+    for st in tour['stops']:
+        for a in st['activities']:
+            if a.get('type') == 'break':
+                tm = a.get('time')
+                iv = (tm['start'], tm['end']) if tm else (st['time']['arrival'], st['time']['departure'])
+                (transit if 'location' not in st else inside).append(iv)
+    both = [iv for iv in transit if iv in inside]
+    return both[0] if both else None
+
+
+def rb_driving_excess(p, tour):
+    """seconds of DRIVING the tour statistic reports beyond the matrix durations of its legs (stops without location left out), when
+    that excess is the total duration of some of the required breaks the tour reports INSIDE stops (0 otherwise): create_reserved_
+    times_fn returns a reserved time for ANY window that starts exactly at its start (binary_search Ok branch, no intersection
+    test), also for the zero-length leg to the next activity at the same place - the break becomes travel time of that leg, stays
+    in times.driving, and break_writer.rs counts it again in times.break and in the cost"""
+    if not tour_required_breaks(p, tour) or len(p['matrices']) != 1:
+        return 0
+    m = p['matrices'][0]
+    n = matrix_size(m)
+    locs = [st['location']['index'] for st in tour['stops'] if 'location' in st]
+    pure = sum(m['travelTimes'][a * n + b] for a, b in zip(locs, locs[1:]))
+    excess = tour['statistic']['times']['driving'] - pure
+    if excess <= 0:
+        return 0
+    inside = []
+    for st in tour['stops']:
+        if 'location' in st:
+            for a in st['activities']:
+                if a.get('type') == 'break' and a.get('time'):
+                    inside.append(secs(a['time']['end']) - secs(a['time']['start']))
+    sums = {0}
+    for d in inside:
+        sums |= {x + d for x in sums}
+    return excess if excess in sums else 0
+
+
+def rb_two_on_one_span(p, tour):
+    """two required breaks of the tour's shift whose reserved windows [latest, latest + duration] both intersect ONE leg (previous
+    stop's departure .. next stop's arrival) or ONE stop (arrival .. departure) of the document, transit stops left out:
+    reserved_time.rs create_reserved_times_fn hands out at most one reserved time per queried time window ("left (earliest) wins"),
+    so the second one is not added to that leg / activity.  Returns the span or None"""
+    brs = tour_required_breaks(p, tour)
+    if len(brs) < 2:
+        return None
+    facts = _flat_facts(tour)
+    if not facts:
+        return None
+    dep = facts[0]['end']
+    wins = []
+    for b in brs:
+        e, l, off = required_break_times(b)
+        if off:
+            l += dep
+        wins.append((l, l + int(b['duration'])))
+    stops = [st for st in tour['stops'] if 'location' in st]
+    spans = [(secs(st['time']['arrival']), secs(st['time']['departure'])) for st in stops]
+    spans += [(secs(a['time']['departure']), secs(b['time']['arrival'])) for a, b in zip(stops, stops[1:])]
+    for x, y in spans:
+        if sum(1 for w in wins if w[0] < y and x < w[1]) >= 2:
+            return (x, y)
+    return None
+
+
+def rb_missing_breaks(p, tour):
+    """python twin of ValidX.rb_missing: the (absolute) latest start of every required break of the tour's shift that is due -
+    departure <= latest < end of the tour's last activity - and not taken"""
+    brs = tour_required_breaks(p, tour)
+    if not brs:
+        return []
+    facts = _flat_facts(tour)
+    if not facts:
+        return []
+    dep, fin = facts[0]['end'], facts[-1]['end']
+    taken = _tour_break_intervals(tour)
+    missing = []
+    for b in brs:
+        e, l, off = required_break_times(b)
+        if off:
+            e, l = e + dep, l + dep
+        if dep <= l < fin and not any(e <= x[0] <= l and x[1] - x[0] == int(b['duration']) for x in taken):
+            missing.append(l)
+    return missing
+
+
+def rb_missing_class(p, tour):
+    """structural class of a FRequiredBreakMissing verdict on a document tour"""
+    if rb_unreported_time(p, tour) > 0:
+        return 'required-break-counted-in-statistic-but-not-reported'
+    facts = _flat_facts(tour)
+    missing = rb_missing_breaks(p, tour)
+    if facts and facts[-1]['kind'] != 'arrival' and missing and all(l >= facts[-1]['arr'] for l in missing):
+        # open end: the writer takes the ARRIVAL at the last activity as the end of the tour (break_writer.rs shift_time), so a
+        # required break that falls into the last activity (its waiting / service time) is never written
+        return 'required-break-inside-last-activity-of-open-tour-not-reported'
+    return 'required-break-missing'
+
+
+def term_valid4(c, s, ids):
+    """the whole round-four checker on one document (development / C07-style callers)"""
+    return '(valid4 %s %s %s)' % (g_xproblem(c, ids), g_problem(c, ids), g_solution(c, s, ids))
+
+
 def unsupported(p, s):
     """why the document cannot be rendered into the reduced Coq types (None = fine)"""
     try:
@@ -839,7 +1167,15 @@ def unsupported(p, s):
         for vt in p['problem']['fleet']['vehicles']:
             for sh in vt['shifts']:
                 if required_breaks(sh):
-                    return 'required break (reserved time stretches travel / service): schedule not replayed'
+                    if optional_breaks(sh) or sh.get('reloads'):
+                        return 'required breaks together with optional breaks / reloads on one shift'
+                    if general_routing(p):
+                        return 'required break with general routing data'
+                    for b in required_breaks(sh):
+                        t = b['time']
+                        if any(not isinstance(x, str) and float(x) != int(x) for x in (t['earliest'], t['latest'])) or \
+                                float(b['duration']) != int(b['duration']):
+                            return 'required break with non-integer times'
                 if sh.get('recharges'):
                     return 'recharge stations'
                 for b in optional_breaks(sh):
@@ -856,8 +1192,14 @@ def unsupported(p, s):
                 return 'commuting/parking time reported without clustering'
         for t in s['tours']:
             for stop in t['stops']:
-                if 'location' not in stop or 'index' not in stop['location']:
-                    return 'stop without index location (transit stop?)'
+                if 'location' not in stop:
+                    # tour-list.md: location and distance "are omitted in case of the stop for a required break which during traveling"
+                    vt = vehicle_type_of(p, t)
+                    if vt is None or not required_breaks(vt['shifts'][t.get('shiftIndex', 0)]) or \
+                            any(a.get('type') != 'break' for a in stop['activities']):
+                        return 'stop without location that is not a required break'
+                elif 'index' not in stop['location']:
+                    return 'stop without index location'
                 if len(stop.get('load', [])) > dims:
                     return 'load with more dimensions than the capacity'
                 if stop.get('parking') is not None:
@@ -891,6 +1233,42 @@ def doc_summary(s):
                     ids.append(a['jobId'])
         tours.append(ids)
     return tours, [u['jobId'] for u in s.get('unassigned') or []]
+
+
+def feature4_labels(c, s):
+    """classify() labels shared by C01 / C02 / C03: which round-four features the problem has (`feature4=`) and what the solved
+    document actually contains (`doc-has=`), so that the evidence shows how often the rules were exercised"""
+    labs = ['feature4=' + f for f in ((c.get('meta') or {}).get('features') or []) if f in FEATURES4]
+    if isinstance(s, dict) and 'tours' in s:
+        labs += doc_feature_labels(c, s)
+    return labs
+
+
+def doc_feature_labels(c, s):
+    """input-distribution labels of a solved document for the round-four features: what the document actually CONTAINS"""
+    labs = set()
+    jobs = {j['id']: j for j in c['problem']['plan']['jobs']}
+    for t in s.get('tours') or []:
+        for st in t['stops']:
+            acts = st.get('activities') or []
+            if st.get('parking') is not None or any(a.get('commute') is not None for a in acts):
+                labs.add('doc-has=clustered-stop')
+            if 'location' not in st:
+                labs.add('doc-has=transit-stop')
+            for a in acts:
+                ty = a.get('type')
+                if ty == 'replacement':
+                    labs.add('doc-has=replacement-activity')
+                    if len(tasks_of(jobs.get(a.get('jobId')) or {})) > 1:
+                        labs.add('doc-has=replacement-in-mixed-job')
+                elif ty == 'recharge':
+                    labs.add('doc-has=recharge-activity')
+                elif ty == 'break':
+                    vt = vehicle_type_of(c, t)
+                    sh = vt['shifts'][t.get('shiftIndex', 0)] if vt else {}
+                    if required_breaks(sh):
+                        labs.add('doc-has=required-break-activity')
+    return sorted(labs)
 
 
 # ------------------------------------------------------------------------------------------------ preconditions
@@ -1372,6 +1750,17 @@ def py_accounting(p, s):
                 v.append(('AJobOrder', jn))
         else:
             v.append(('AJobDuplicated', jn))
+        # ValidX.mixed_viols: per tour, no pickup of the job after a delivery / replacement / service of the job
+        for w in tw:
+            seen_other = False
+            mixed_ok = True
+            for a in w:
+                if a[1] != 'pickup':
+                    seen_other = True
+                elif seen_other:
+                    mixed_ok = False
+            if not mixed_ok:
+                v.append(('AJobMixedOrder', jn))
     for f in flats:
         for a in f:
             if a[1] in jobkinds and a[0] not in plan:
@@ -1407,7 +1796,21 @@ def py_accounting(p, s):
                 v.append(('AReload', k))
             facts = _flat_facts(t)
             bacts = [a for a in facts if a['kind'] == 'break']
-            if not _assignable(bacts, optional_breaks(shift), _break_fits(facts[0]['end'] if facts else 0)):
+            if required_breaks(shift):
+                # ValidX.accounted4: the break activities of such a tour are its REQUIRED breaks (Valid.accounted_b sees the tour
+                # without them): distinct defined ones (duration, start inside [earliest, latest]), not overlapping
+                dep = facts[0]['end'] if facts else 0
+
+                def rfits(a, b):
+                    e, l, off = required_break_times(b)
+                    if off:
+                        e, l = e + dep, l + dep
+                    return a['end'] - a['start'] == int(b['duration']) and e <= a['start'] <= l
+                ivs = sorted((a['start'], a['end']) for a in bacts)
+                ok = all(x[0] < x[1] for x in ivs) and all(ivs[i][1] <= ivs[i + 1][0] for i in range(len(ivs) - 1))
+                if not (_assignable(bacts, required_breaks(shift), rfits) and ok):
+                    v.append(('ARequiredBreak', k))
+            elif not _assignable(bacts, optional_breaks(shift), _break_fits(facts[0]['end'] if facts else 0)):
                 v.append(('ABreak', k))
     return sorted(v)
 
@@ -1472,4 +1875,10 @@ def panic_class(c, msg):
     """violation class of a solver panic, derived from the message and the structure of the input"""
     if 'ComponentRange' in msg and 'timestamp' in msg and unbounded_departure_possible(c['problem']):
         return 'writer-panic-unbounded-departure-max-duration-vehicle'
+    if 'ComponentRange' in msg and 'timestamp' in msg and \
+            any(required_breaks(sh) and not sh.get('end') for vt in c['problem']['fleet']['vehicles'] for sh in vt['shifts']):
+        # findings C01-F8 / C02-F4 / C03-F7: DynamicActivityCost::estimate_departure returns f64::MAX when a required break pushes
+        # the start of the work behind the window's end; TransportConstraint::evaluate_activity returns success for the LAST
+        # activity of an open-end tour before it looks at that departure, and the writer's format_time unwraps the timestamp
+        return 'writer-panic-required-break-open-end-shift-departure-f64-max'
     return 'solver-panic'
